@@ -548,9 +548,71 @@ def check_C17(tier):
     return run_check("C17", tier, stages_C17(tier), C17_RULE, assumptions=EVAL_ASSUME)
 
 
-CHECKS = {"C17": check_C17, "C09": check_C09, "C10": check_C10, "C01": check_C01, "C02": check_C02, "C05": check_C05, "C06": check_C06, "C07": check_C07,
+# ---------------------------------------------------------------------------
+# C11: the reference grammar (Grammar.tla) against the real parser
+
+SYN_SUBST = {
+    "SLeaves": ("<-", "FS_Leaves"), "SUnOps": ("<-", "FS_UnOps"), "SBinOps": ("<-", "FS_BinOps"),
+    "SProps": ("<-", "FS_Props"), "SMeths": ("<-", "FS_Meths"), "SFuncs": ("<-", "FS_Funcs"),
+    "SBuiltins": ("<-", "FS_Builtins"), "SUseLen": ("<-", "FS_UseLen"), "SUseCond": ("<-", "FS_UseCond"),
+    "SUseIdx": ("<-", "FS_UseIdx"), "SUseElem": ("<-", "FS_UseElem"), "SSliceShapes": ("<-", "FS_SliceShapes"),
+    "SArrLens": ("<-", "FS_ArrLens"), "SMapLens": ("<-", "FS_MapLens"),
+}
+
+
+def syn_cfg(family, maxnodes, maxclosure=2, emit="trees", invariants=("RoundTrip", "ParensRequired", "EmitTrees")):
+    c = dict(SYN_SUBST)
+    c.update(SFamily=family, SEmitMode=emit, SMaxNodes=maxnodes, SMaxClosure=maxclosure, TokAlphabet="ops", TokMaxLen=1)
+    return vf.cfg_text(c, invariants=invariants)
+
+
+def seq_cfg(alphabet, maxlen):
+    c = dict(SYN_SUBST)
+    c.update(SFamily="prec", SEmitMode="seqs", SMaxNodes=1, SMaxClosure=1, TokAlphabet=alphabet, TokMaxLen=maxlen)
+    return vf.cfg_text(c, init="TInit", next_="TNext", invariants=("EmitSeqs",))
+
+
+C11_FAMILIES = {"quick": [("prec", 5), ("ops", 4), ("postfix", 4), ("forms", 4), ("mixed", 4)],
+                "thorough": [("prec", 6), ("ops", 4), ("postfix", 5), ("forms", 5), ("mixed", 5)]}
+C11_SEQS = {"quick": [("ops", 4), ("post", 4), ("forms", 4)], "thorough": [("ops", 5), ("post", 5), ("forms", 5)]}
+
+
+def stages_C11(tier):
+    out = []
+    for fam, n in C11_FAMILIES[tier]:
+        out.append(Stage("syn-%s-n%d" % (fam, n), "MC_Front", syn_cfg(fam, n), "C11", timeout=2400))
+    for alpha, n in C11_SEQS[tier]:
+        out.append(Stage("seq-%s-len%d" % (alpha, n), "MC_Front", seq_cfg(alpha, n), "C11", timeout=2400))
+    sim_n = 400 if tier == "quick" else 5000
+    for fam in ("mixed", "forms", "postfix"):
+        out.append(Stage("syn-%s-sim" % fam, "MC_Front", syn_cfg(fam, 14, maxclosure=3), "C11",
+                         simulate=sim_n, depth=16, warm=False))
+    return out
+
+
+C11_RULE = ("TLC: every syntax tree of five families up to the node budget (untyped derivation machine GenSyn.tla: all "
+            "unary and binary operators of every precedence level, conditionals, property/method/index/slice steps with "
+            "and without nil-safety, calls, builtins with closures and `#`, array and map literals) + random deep "
+            "derivations; in every state RoundTrip (the reference parser maps the minimal and the fully parenthesised "
+            "token sequence back to the tree) and ParensRequired (removing any pair of parentheses the minimal printer "
+            "wrote changes the parse); each tree's texts - minimal parentheses x {no, single, irregular multi-line} "
+            "spacing, all parentheses x {no, irregular} spacing - are parsed by the real parser.Parse: the projected real "
+            "tree must equal the tree; and every token sequence up to the length bound over three alphabets (operators, "
+            "postfix steps, brackets/builtins) is parsed for real: the tree RefParse assigns, or rejection where RefParse "
+            "rejects; non-trivial = a tree of >= 3 nodes or a sequence of >= 3 tokens")
+
+
+def check_C11(tier):
+    return run_check("C11", tier, stages_C11(tier), C11_RULE,
+                     assumptions=["the reference grammar is the binding-power table and precedence-climbing scheme of "
+                                  "DESIGN.md appendix F (the language document gives no table)",
+                                  "harness projection projNode (harness/front.go) of ast nodes is faithful",
+                                  "TLC evaluates Grammar!RefParse as written"])
+
+
+CHECKS = {"C11": check_C11, "C17": check_C17, "C09": check_C09, "C10": check_C10, "C01": check_C01, "C02": check_C02, "C05": check_C05, "C06": check_C06, "C07": check_C07,
           "C14": check_C14, "C15": check_C15, "C18": check_C18}
-STAGES = {"C17": stages_C17, "C09": stages_C09, "C10": stages_C10, "C01": stages_C01, "C02": stages_C02, "C05": stages_C05, "C06": stages_C06, "C07": stages_C07,
+STAGES = {"C11": stages_C11, "C17": stages_C17, "C09": stages_C09, "C10": stages_C10, "C01": stages_C01, "C02": stages_C02, "C05": stages_C05, "C06": stages_C06, "C07": stages_C07,
           "C14": stages_C14, "C15": stages_C15, "C18": stages_C18}
 
 
